@@ -205,12 +205,12 @@ theorem step_sim {cfg : Config} {L n Li : Nat} (hcfg : CfgOk cfg L n Li) (dc : I
       { pc := rfl, ctx := rfl, dwf := hdwf1, coh := hcoh1, iwf := hfi }
     by_cases h2 : Int.tdiv a.pc.toInt 4 < 0
     · simp only [h2, if_true, StepRel]
-      exact ⟨trivial, hsim1, Or.inr ⟨hfc, rfl, rfl, Int.le_refl 0, by omega, Int.le_refl 0, hmem⟩⟩
+      exact ⟨trivial, hsim1, Or.inr ⟨hfc, rfl, rfl, Int.le_refl 0, Int.add_nonneg hl1 hmem, Int.le_refl 0, hmem⟩⟩
     · simp only [h2, if_false]
       cases h3 : app.instrs[(Int.tdiv a.pc.toInt 4).toNat]? with
       | none =>
         simp only [StepRel]
-        exact ⟨trivial, hsim1, Or.inr ⟨hfc, rfl, rfl, Int.le_refl 0, by omega, Int.le_refl 0, hmem⟩⟩
+        exact ⟨trivial, hsim1, Or.inr ⟨hfc, rfl, rfl, Int.le_refl 0, Int.add_nonneg hl1 hmem, Int.le_refl 0, hmem⟩⟩
       | some i =>
         simp only
         unfold accessOk at hacc
@@ -221,8 +221,9 @@ theorem step_sim {cfg : Config} {L n Li : Nat} (hcfg : CfgOk cfg L n Li) (dc : I
         obtain ⟨bytes, u2, mem2, mr, hld, hbytes, hi2, hdwf2, hcoh2, hmrc⟩ :=
           load_ok hcfg.dline hcfg.Lpos hcfg.npos hdwf1 hcoh1 (i.memoryRead a.ctx 0#32) hlok
         simp only [hld, hbytes]
+        trace_state
         sorry
   · simp only [h1, not_false_eq_true, if_true, StepRel]
-    exact ⟨trivial, { pc := rfl, ctx := rfl, dwf := hdwf, coh := hcoh, iwf := hiwf }, Or.inl rfl⟩
+    exact ⟨trivial, { pc := rfl, ctx := rfl, dwf := hdwf, coh := hcoh, iwf := hiwf }, Or.inl trivial⟩
 
 end Proofs.Mvp3
